@@ -3,6 +3,6 @@
 pid="$1"; suf="$2"; shift 2
 echo "######## $pid$suf"
 python3 -c "
-import json;m=json.load(open('/tmp/mut/$pid/out/meta$suf.json'));print('summary:',m.get('summary'));print('needs:',m.get('needs_to_manifest'))" 2>/dev/null
+import json;m=json.load(open('${MUTROOT:-/tmp/mut}/$pid/out/meta$suf.json'));print('summary:',m.get('summary'));print('needs:',m.get('needs_to_manifest'))" 2>/dev/null
 /verif/tools/verify_mutant.sh $pid $suf 2>&1 | grep -E "^==|test result|DOES NOT" | head -12
-/verif/tools/try_mutant.sh /tmp/mut/$pid/out/patch$suf.diff $pid "$@"
+/verif/tools/try_mutant.sh ${MUTROOT:-/tmp/mut}/$pid/out/patch$suf.diff $pid "$@"
